@@ -6,6 +6,8 @@ package pfcpiface
 
 import (
 	"encoding/binary"
+	"math"
+	"math/bits"
 	"net"
 	"strconv"
 	"strings"
@@ -106,9 +108,21 @@ func maxUint64(x, y uint64) uint64 {
 	return x
 }
 
-// Returns the bandwidth delay product for a given rate in kbps and duration in ms.
+// Returns the bandwidth delay product for a given rate in kbps and duration in ms, in bytes
+// (kbps * 1000 / 8 * ms / 1000 = kbps * ms / 8), rounded up to a whole byte. It is computed on
+// the exact 128-bit product and saturates at the largest uint64.
 func calcBurstSizeFromRate(kbps uint64, ms uint64) uint64 {
-	return uint64((float64(kbps) * 1000 / 8) * (float64(ms) / 1000))
+	hi, lo := bits.Mul64(kbps, ms)
+	if hi >= 8 {
+		return math.MaxUint64
+	}
+
+	burst := hi<<61 | lo>>3
+	if lo&7 != 0 && burst != math.MaxUint64 {
+		burst++
+	}
+
+	return burst
 }
 
 // MustParseStrIP : parse IP address from config and fail on error.
